@@ -36,6 +36,11 @@ def main():
         except KeyError as e:
             r = rep.rule(getattr(fn, "__name__", "rule"), "anchor lookup")
             r.anchor_missing(str(e))
+        except Exception as e:          # a rule that cannot analyse the tree fails closed with a located report
+            import traceback
+            r = rep.rule(getattr(fn, "__name__", "rule"), "internal")
+            r.fail("<rule>", getattr(fn, "__name__", "rule"), "the rule could not analyse the current tree (%s: %s); fail closed" %
+                   (type(e).__name__, e), None, traceback.format_exc()[-1500:])
     if a.tier == "thorough":
         for fn in spec.get("thorough", []):
             fn(an, rep)
